@@ -18,6 +18,7 @@ import (
 	"context"
 	"errors"
 	"fmt"
+	"io"
 	"net/http"
 	"net/url"
 	"strings"
@@ -195,6 +196,18 @@ func wrapIfContextError(err error) error {
 	}
 	if errors.Is(err, context.DeadlineExceeded) {
 		return NewError(CodeDeadlineExceeded, err)
+	}
+	return err
+}
+
+// hideEOF returns err, or an error with the same text that doesn't wrap io.EOF
+// if err does. Codecs and decompressors are supplied by the user: when one of
+// them reports a bad payload with an error that happens to wrap io.EOF (a
+// json.Decoder does, for an empty document), wrapping that error in ours must
+// not make the bad payload look like the clean end of the stream.
+func hideEOF(err error) error {
+	if errors.Is(err, io.EOF) {
+		return errors.New(err.Error())
 	}
 	return err
 }
